@@ -494,3 +494,148 @@ def check_gradient_contraction(ctx, rid):
                   f"{tag}: padding atoms receive exactly zero gradient", f"{tag}: padding atoms receive a non-zero gradient")
     if n_cmp < 60:
         raise AnalysisError("gradient contraction: too few comparisons")
+
+
+# ====================================================================================================================
+# CIS / RPA response operator
+RC = "seqm/seqm_functions/rcis_batch.py"
+
+
+class UniformBatch(System):
+    """nmol identical molecules: `heavy` heavy atoms followed by `hydro` hydrogens (the layout the excited-state code requires)"""
+    def __init__(self, nmol=2, heavy=2, hydro=1):
+        super().__init__(tuple([heavy + hydro] * nmol), heavy + hydro, 4)
+        self.heavy, self.hydro = heavy, hydro
+        self.norb = 4 * heavy + hydro
+        self.npm = (self.molsize * (self.molsize - 1)) // 2
+        # packed AO list of one molecule: (position in molecule, orbital)
+        self.aos = [(p, o) for p in range(heavy) for o in range(4)] + [(heavy + h, 0) for h in range(hydro)]
+
+    def eri(self, b, w, par):
+        """(mn|ls) over the packed AOs of molecule b from the two-centre array w[(b, pair)] and the one-centre parameters (sa.nddo)"""
+        import sympy as sp
+        from . import nddo
+        gss, gpp, gsp, gp2, hsp = nddo.symbols()
+        ms = self.molsize
+        pairs_local = [(i, j) for i in range(ms) for j in range(i + 1, ms)]
+
+        def g(mu, nu, la, si):
+            (pa, m), (pb, n), (pc, l), (pd, s) = self.aos[mu], self.aos[nu], self.aos[la], self.aos[si]
+            if pa != pb or pc != pd:
+                return sp.Integer(0)
+            if pa == pc:
+                a = b * ms + pa
+                sub = {gss: par["g_ss"][a], gpp: par["g_pp"][a], gsp: par["g_sp"][a], gp2: par["g_p2"][a], hsp: par["h_sp"][a]}
+                return sp.sympify(nddo.integral(m, n, l, s)).subs(sub, simultaneous=True)
+            if pa < pc:
+                k = pairs_local.index((pa, pc))
+                return w[b * self.npm + k, pack(m, n), pack(l, s)]
+            k = pairs_local.index((pc, pa))
+            return w[b * self.npm + k, pack(l, s), pack(m, n)]
+        return g
+
+    def G(self, b, T, w, par):
+        """G[T]_mn = sum_ls T_ls [(mn|ls) - 1/2 (ml|ns)] for an arbitrary (non-symmetric) T over the packed AOs"""
+        import sympy as sp
+        g = self.eri(b, w, par)
+        n = self.norb
+        cache = {}
+
+        def gg(a, b_, c, d):
+            key = (a, b_, c, d)
+            if key not in cache:
+                cache[key] = g(a, b_, c, d)
+            return cache[key]
+        out = [[None] * n for _ in range(n)]
+        half = sp.Rational(1, 2)
+        for mu in range(n):
+            for nu in range(n):
+                terms = []
+                for la in range(n):
+                    for si in range(n):
+                        c = gg(mu, nu, la, si) - half * gg(mu, la, nu, si)
+                        if c != 0:
+                            terms.append(c * T[la][si])
+                out[mu][nu] = sp.Add(*terms)
+        return out
+
+
+def check_cis_operator(ctx, rid):
+    """The operator whose eigenpairs the Davidson drivers return.  On a uniform batch of two (heavy, heavy, H) molecules with exact random rational integrals,
+    orbitals and amplitudes: makeA_pi_batched(T) = J[T] - 1/2 K[T] for a non-symmetric transition density T (as polynomials in the entries of T), and
+    matrix_vector_product_batched = (e_a - e_i) V + 2 C_occ^T G[C_occ V C_virt^T] C_virt (A) resp. the transposed contraction (B), in the chunked and the
+    unchunked schedule."""
+    import random
+    import numpy as np
+    import sympy as sp
+    from .loader import AnalysisError
+    from .npsym import NpSym
+    repo = ctx.repo
+    rc = repo.mod(RC)
+    U = UniformBatch(2, 2, 1)
+    na = len(U.atoms)
+    f_pi = rc.func("makeA_pi_batched")
+    f_mv = rc.func("matrix_vector_product_batched")
+    for seed in (51, 52):
+        rng, cache = random.Random(seed), {}
+        w = _numeric(np.array([[[sp.Symbol(f"w{k}_{a}_{b}") for b in range(10)] for a in range(10)] for k in range(U.nmol * U.npm)], dtype=object), rng, cache)
+        par = {k: _numeric(U.atom_vector(k), rng, cache) for k in ("g_ss", "g_pp", "g_sp", "g_p2", "h_sp")}
+        # hydrogens carry no p shell: their p-type parameters are zero in the parameter tables
+        for a, (m, p) in enumerate(U.atoms):
+            if p >= U.heavy:
+                for k in ("g_pp", "g_sp", "g_p2", "h_sp"):
+                    par[k][a] = sp.Integer(0)
+        mol = U.namespace(nmol=U.nmol, molsize=U.molsize, mask=U.mask, maskd=U.maskd, mask_l=U.mask_l, idxi=U.idxi, idxj=U.idxj,
+                          nHeavy=np.array([U.heavy] * U.nmol), nHydro=np.array([U.hydro] * U.nmol), norb=np.array([U.norb] * U.nmol), parameters=par)
+        nroots = 2
+        T = None if seed != 51 else np.array([[[[sp.Symbol(f"T{b}_{r}_{i}_{j}") for j in range(U.norb)] for i in range(U.norb)] for r in range(nroots)] for b in range(U.nmol)], dtype=object)
+        I = NpSym(repo)
+        F0 = I.call_function(rc, f_pi, [mol, T.copy(), w.copy()]) if T is not None else None
+        if T is not None and getattr(F0, "shape", None) != (U.nmol, nroots, U.norb, U.norb):
+            raise AnalysisError("makeA_pi_batched: unexpected result shape")
+        bad = []
+        for b in range(U.nmol if T is not None else 0):
+            for r in range(nroots):
+                want = U.G(b, T[b, r].tolist(), w, par)
+                for i in range(U.norb):
+                    for j in range(U.norb):
+                        if sp.expand(F0[b, r, i, j] - want[i][j]) != 0:
+                            bad.append((b, r, i, j))
+        if T is not None:
+          ctx.check(not bad, rid, rc, f_pi, "makeA_pi_batched", f"G[T] point #{seed}",
+                    f"two-electron response of a non-symmetric transition density: makeA_pi_batched(T) = J[T] - 1/2 K[T] for every entry of T "
+                    f"({U.nmol} molecules x {nroots} roots x {U.norb}^2 elements, hydrogen packing included)",
+                    (f"makeA_pi_batched: element ({bad[0][2]},{bad[0][3]}) of molecule {bad[0][0]}, root {bad[0][1]} is not sum_ls T_ls [(mn|ls) - 1/2 (ml|ns)] ({len(bad)} wrong elements): the "
+                     f"matrix whose eigenpairs are returned is not the CIS / RPA Hamiltonian") if bad else "")
+        # full matrix-vector product, both schedules
+        nocc, nvirt = 2, 3
+        rnd = lambda *shape: _numeric(np.array([sp.Symbol(f"x{rng.random()}") for _ in range(int(np.prod(shape)))], dtype=object).reshape(shape), rng, cache)
+        Cocc, Cvirt, V, ea_ei = rnd(U.nmol, U.norb, nocc), rnd(U.nmol, U.norb, nvirt), rnd(U.nmol, nroots, nocc * nvirt), rnd(U.nmol, nocc, nvirt)
+        want_A = np.empty((U.nmol, nroots, nocc, nvirt), dtype=object)
+        want_B = np.empty_like(want_A)
+        for b in range(U.nmol):
+            for r in range(nroots):
+                Vr = V[b, r].reshape(nocc, nvirt)
+                Tn = [[sp.Add(*[Cocc[b, m, i] * Vr[i, a] * Cvirt[b, n, a] for i in range(nocc) for a in range(nvirt)]) for n in range(U.norb)] for m in range(U.norb)]
+                Gm = U.G(b, Tn, w, par)
+                for i in range(nocc):
+                    for a in range(nvirt):
+                        want_A[b, r, i, a] = ea_ei[b, i, a] * Vr[i, a] + 2 * sp.Add(*[Cocc[b, m, i] * Gm[m][n] * Cvirt[b, n, a] for m in range(U.norb) for n in range(U.norb)])
+                        want_B[b, r, i, a] = 2 * sp.Add(*[Cocc[b, m, i] * Gm[n][m] * Cvirt[b, n, a] for m in range(U.norb) for n in range(U.norb)])
+        for sched, ret in (("unchunked", (False, nroots)), ("chunked", (True, 1))):
+            I = NpSym(repo, stubs={"getMemUse": lambda *a, **k: ret})
+            res = I.call_function(rc, f_mv, [mol, V.copy(), w.copy(), ea_ei.copy(), Cocc.copy(), Cvirt.copy()], {"makeB": True})
+            if not (isinstance(res, tuple) and len(res) == 2):
+                raise AnalysisError("matrix_vector_product_batched(makeB=True) does not return (A, B)")
+            A, B = res
+            okA = A.shape == (U.nmol, nroots, nocc * nvirt) and all(sp.sympify(x) == y for x, y in zip(A.reshape(-1), want_A.reshape(-1)))
+            okB = B.shape == (U.nmol, nroots, nocc * nvirt) and all(sp.sympify(x) == y for x, y in zip(B.reshape(-1), want_B.reshape(-1)))
+            ctx.check(okA, rid, rc, f_mv, "matrix_vector_product_batched", f"A V ({sched}) point #{seed}",
+                      f"A V = (e_a - e_i) V + sum_jb [2 (ia|jb) - (ij|ab)] V_jb in the {sched} schedule (exact rationals)",
+                      f"matrix_vector_product_batched ({sched} schedule): A V differs from the singlet CIS Hamiltonian applied to V: the returned excitation energies are eigenvalues of another matrix")
+            ctx.check(okB, rid, rc, f_mv, "matrix_vector_product_batched", f"B V ({sched}) point #{seed}",
+                      f"B V = sum_jb [2 (ia|bj) - (ib|aj)] V_jb in the {sched} schedule (exact rationals)",
+                      f"matrix_vector_product_batched ({sched} schedule): B V differs from the RPA coupling matrix applied to V")
+            A_only = I.call_function(rc, f_mv, [mol, V.copy(), w.copy(), ea_ei.copy(), Cocc.copy(), Cvirt.copy()])
+            ctx.check(getattr(A_only, "shape", None) == A.shape and all(sp.sympify(x) == sp.sympify(y) for x, y in zip(A_only.reshape(-1), A.reshape(-1))), rid, rc, f_mv,
+                      "matrix_vector_product_batched", f"A V without B ({sched}) point #{seed}", "the CIS call (makeB=False) returns the same A V", "A V depends on whether B is requested")
